@@ -23,8 +23,12 @@ const TIMEOUT: Duration = Duration::from_secs(60);
 ///
 /// We're using a custom switch very similar to what [mockall_double::double]
 /// is doing.
-#[cfg(not(test))]
+#[cfg(all(not(test), not(feature = "zvt_verif")))]
 type InnerTcpStream = tokio::net::TcpStream;
+
+/// In-memory I/O for the verification harness (feature `zvt_verif`).
+#[cfg(all(not(test), feature = "zvt_verif"))]
+type InnerTcpStream = crate::verif_hook::VerifStream;
 
 /// Mocked I/O for unit tests.
 #[cfg(test)]
